@@ -37,6 +37,10 @@ type CacheDeco struct {
 	// gate: if non-nil every Modify parks here until released
 	Gate func(ctx context.Context, call CacheCall)
 	PruneCreated, PruneApplied int
+	// OnReadChEnd, if set, is called with the ordinal of the ReadCh call after its last element was handed over
+	// and before the channel is closed (harness-owned placement of a cancellation between read and hand-over)
+	OnReadChEnd func(ordinal int)
+	readChCalls int
 }
 
 var ErrCacheInjected = fmt.Errorf("verif: injected cache failure")
@@ -151,7 +155,31 @@ func (d *CacheDeco) ReadCh(ctx context.Context, name string, opts *cache.Opts, p
 	case "panic":
 		panic(CrashSentinel{At: call.String()})
 	}
-	return d.Client.ReadCh(ctx, name, opts, paths, period)
+	in := d.Client.ReadCh(ctx, name, opts, paths, period)
+	hook := d.OnReadChEnd
+	if hook == nil {
+		return in
+	}
+	d.mu.Lock()
+	ord := d.readChCalls
+	d.readChCalls++
+	d.mu.Unlock()
+	out := make(chan *cache.Update)
+	go func() {
+		defer close(out)
+		for u := range in {
+			select {
+			case out <- u:
+			case <-ctx.Done():
+				for range in {
+				}
+				hook(ord)
+				return
+			}
+		}
+		hook(ord)
+	}()
+	return out
 }
 
 func (d *CacheDeco) GetKeys(ctx context.Context, name string, store cachepb.Store) (chan *cache.Update, error) {
